@@ -170,6 +170,9 @@ func (p *parser) recover(errp *error) {
 			panic(e)
 		}
 		if p != nil {
+			if p.lex != nil {
+				p.lex.drain()
+			}
 			p.stopParse()
 		}
 		*errp = e.(error)
